@@ -348,10 +348,6 @@ func runRace(t *rapid.T) {
 		w.T.Lenient = true
 		w.tty.OnFault = func(kind string) { w.T.AbortSequence() }
 		w.tty.OnWrite = func(g string, b []byte) {
-			if u := w.tty.LastUnsent; len(u) >= 4 && len(b) > len(u) && string(b[:len(u)]) == string(u) {
-				w.failf("C10/torn-show", "the %d bytes a failed tty write did not accept were sent again in front of the next frame (written by %s): a Show reaches the terminal as its own block, or not at all", len(u), g)
-			}
-			w.tty.LastUnsent = nil
 			if !w.T.InGround() && w.lastW != g {
 				w.failf("C10/torn-show", "bytes written by %s arrive inside an unfinished control sequence written by %s: the output stream is interleaved", g, w.lastW)
 			}
